@@ -171,3 +171,43 @@ def pattern(n, seed, salt=0):
         x = (x * 25173 + 13849 + i) & 0xFFFF
         out.append(((x >> 7) ^ (i * 37 + salt)) & 0xFF)
     return bytes(out)
+
+
+# ---------------------------------------------------------------- frame injection (mono world)
+def mk_ghost_tx(world, name="ghost", **kw):
+    """ghost PTX matching the network layer's radio configuration (ch 76, 1 Mbps, CRC 2,
+    dynamic payloads, 5-byte addresses)"""
+    return sim.ghost_sender(world, name, **kw)
+
+
+def inject(world, ghost, addr, payload, noack=False, wait=3 * MS):
+    """transmit `payload` from the ghost to pipe address `addr` and let the world run for
+    `wait` so the packet (and its hardware ACK) complete.  The caller then calls update().
+    Returns True if some radio stored the packet."""
+    n = len(world.airlog)
+    sim.ghost_send(ghost, addr, payload, noack)
+    world.advance(wait)
+    return any(p.src is ghost and any(not h.endswith(":dup") for h in p.heard_by) for p in world.airlog[n:])
+
+
+def net_pipe_address(node_addr, pipe, prefix=0xCC, suffix=(0xC3, 0x3C, 0x33, 0xCE, 0x3E, 0xE3), multicast=True):
+    """Physical pipe address of a logical node address, written from the RF24Network topology
+    documentation (docs/network_docs/topology.rst) - independent of the library's code.
+    pipe 0 of a node with multicast enabled is the shared address of its level."""
+    out = bytearray([prefix] * 5)
+    if multicast and pipe == 0 and node_addr != 0:
+        # level address: byte 1 carries the suffix indexed by the level (number of octal digits)
+        lvl = 0
+        a = node_addr
+        while a:
+            a >>= 3
+            lvl += 1
+        out[1] = suffix[lvl]
+        return bytes(out)
+    a, i = node_addr, 1
+    while a:
+        out[i] = suffix[a & 7]
+        a >>= 3
+        i += 1
+    out[0] = suffix[pipe]
+    return bytes(out)
